@@ -78,6 +78,20 @@ def install():
                 if sim.on_packet is not None:
                     sim.on_packet(label, conn, 'R', pkttype, pktid, payload)
 
+    orig_newkeys = SSHConnection.send_newkeys
+
+    def send_newkeys(self, k, h):
+        sim = seams._state['sim']
+
+        if sim is not None:
+            label = label_of(sim, self)
+            sim.escrow.setdefault(label, []).append(
+                (bytes(k), bytes(h), bytes(self._session_id or h)))
+
+        return orig_newkeys(self, k, h)
+
+    SSHConnection.send_newkeys = send_newkeys
+
     log_sent._orig = orig_sent
     log_recv._orig = orig_recv
     a_packet.SSHPacketLogger.log_sent_packet = log_sent
